@@ -174,11 +174,8 @@ def check(run):
         run.check(any('expiry() <= now' in x for x in g), 'R4', 'fire-only-due', S + '::run', rn.loc(f), 'fire is not guarded by front->expiry() <= now: ' + str(g), 'fires only timers whose expiry <= now')
         a = q.render(rn, f['args'][0])
         run.check('operation_aborted' not in a and 'error_code{}' in a.replace(' ', ''), 'R4', 'fire-success', S + '::run', rn.loc(f), 'run() fires with ' + a, 'fires with success')
-    rm = fx.fn1(S + '::remove_timer')
-    run.touch(rm)
-    er = [c for c in rm.calls() if (c.get('callee') or '').endswith('::erase') and q.render(rm, c.get('obj')) == 'm_timer_queue']
-    eq = [c for c in rm.calls() if q.callee_name(c) in ('std::equal_range', 'std::find', 'std::lower_bound')]
-    run.check(len(er) == 1 and bool(eq), 'R4', 'remove-exact', S + '::remove_timer', rm.loc(), 'remove_timer does not erase exactly the searched element', 'erases the element found by equal_range+find')
+    import p12
+    p12.remove_timer_rule(run)
     run.floor('R4', 14)
     run.floor('R2', 10)
 
